@@ -17,91 +17,50 @@ From NV Require Import Extract.Cmd_Sets.
 Open Scope Z_scope.
 
 (* ---------------------------------------------------------------- 1. the dict *)
-(* IPNetwork.__eq__/__hash__ use (version, first, last): on host-bit-free well-formed keys this is object identity *)
-Theorem C06_key_eq : forall a b, wfh a -> wfh b -> (key_eqb a b = true <-> a = b).
-Proof. exact wfh_key_eqb_iff. Qed.
-Print Assumptions C06_key_eq.
+(* single-key operations.  IPNetwork.__eq__/__hash__ use (version, first, last): on host-bit-free well-formed keys this
+   is object identity, and key-equal objects denote the same addresses whatever their host bits; `k in d`;
+   d[k] = True (an equal key keeps the old key object, a new key is appended); del d[k] (removes the first = only key
+   equal to k, keeps the order of the others; KeyError when absent) *)
+Theorem C06_dict_ops :
+  (forall a b, wfh a -> wfh b -> (key_eqb a b = true <-> a = b)) /\
+  (forall a b ver x, key_eqb a b = true -> (in_net a ver x <-> in_net b ver x)) /\
+  (forall k d, dmem k d = true <-> exists k', In k' d /\ key_eqb k k' = true) /\
+  (forall x d k, In x (dset d k) <-> In x d \/ (x = k /\ dmem k d = false)) /\
+  (forall d k ver x, den (dset d k) ver x <-> den d ver x \/ in_net k ver x) /\
+  (forall k d, dmem k d = true ->
+     exists d1 k' d2, d = d1 ++ k' :: d2 /\ key_eqb k k' = true /\ dmem k d1 = false /\ ddel d k = Ok (d1 ++ d2)) /\
+  (forall k d, dmem k d = false -> ddel d k = Raise KeyError).
+Proof.
+  exact (conj wfh_key_eqb_iff (conj key_eqb_in_net (conj dmem_iff (conj in_dset (conj den_dset (conj ddel_split ddel_raise)))))).
+Qed.
+Print Assumptions C06_dict_ops.
 
-(* key-equal objects denote the same addresses, whatever their host bits *)
-Theorem C06_key_den : forall a b ver x, key_eqb a b = true -> (in_net a ver x <-> in_net b ver x).
-Proof. exact key_eqb_in_net. Qed.
-Print Assumptions C06_key_den.
-
-Theorem C06_dict_mem : forall k d, dmem k d = true <-> exists k', In k' d /\ key_eqb k k' = true.
-Proof. exact dmem_iff. Qed.
-Print Assumptions C06_dict_mem.
-
-(* d[k] = True: an equal key keeps the old key object, a new key is appended *)
-Theorem C06_dict_set : forall x d k, In x (dset d k) <-> In x d \/ (x = k /\ dmem k d = false).
-Proof. exact in_dset. Qed.
-Print Assumptions C06_dict_set.
-
-Theorem C06_dict_set_den : forall d k ver x, den (dset d k) ver x <-> den d ver x \/ in_net k ver x.
-Proof. exact den_dset. Qed.
-Print Assumptions C06_dict_set_den.
-
-(* del d[k]: removes the first (only) key equal to k, keeps the order of the others; KeyError when absent *)
-Theorem C06_dict_del : forall k d, dmem k d = true ->
-  exists d1 k' d2, d = d1 ++ k' :: d2 /\ key_eqb k k' = true /\ dmem k d1 = false /\ ddel d k = Ok (d1 ++ d2).
-Proof. exact ddel_split. Qed.
-Print Assumptions C06_dict_del.
-
-Theorem C06_dict_del_absent : forall k d, dmem k d = false -> ddel d k = Raise KeyError.
-Proof. exact ddel_raise. Qed.
-Print Assumptions C06_dict_del_absent.
-
-(* d.update(other) / dict.fromkeys(l) *)
-Theorem C06_dict_update_den : forall l d ver x, den (dupdate d l) ver x <-> den d ver x \/ den l ver x.
-Proof. exact den_dupdate. Qed.
-Print Assumptions C06_dict_update_den.
-
-Theorem C06_dict_update_mem : forall l d x, dmem x (dupdate d l) = true <-> dmem x d = true \/ dmem x l = true.
-Proof. exact dmem_dupdate. Qed.
-Print Assumptions C06_dict_update_mem.
-
-Theorem C06_dict_update_fresh : forall l d, Forall wfh (d ++ l) -> NoDup (d ++ l) -> dupdate d l = d ++ l.
-Proof. exact dupdate_fresh. Qed.
-Print Assumptions C06_dict_update_fresh.
-
-Theorem C06_dict_fromkeys : forall l, Forall wfh l -> NoDup l -> dfromkeys l = l.
-Proof. exact dfromkeys_id. Qed.
-Print Assumptions C06_dict_fromkeys.
-
-Theorem C06_dict_fromkeys_den : forall l ver x, den (dfromkeys l) ver x <-> den l ver x.
-Proof. exact den_dfromkeys. Qed.
-Print Assumptions C06_dict_fromkeys_den.
-
-Theorem C06_dict_update_in : forall l d x, Forall wfh d -> Forall wfh l -> (In x (dupdate d l) <-> In x d \/ In x l).
-Proof. exact in_dupdate_wfh. Qed.
-Print Assumptions C06_dict_update_in.
-
-Theorem C06_dict_update_nodup : forall l d, Forall wfh d -> Forall wfh l -> NoDup d -> NoDup (dupdate d l).
-Proof. exact NoDup_dupdate. Qed.
-Print Assumptions C06_dict_update_nodup.
-
-Theorem C06_dict_fromkeys_mem : forall l x, dmem x (dfromkeys l) = dmem x l.
-Proof. exact dmem_dfromkeys. Qed.
-Print Assumptions C06_dict_fromkeys_mem.
-
-(* dict == dict on duplicate-free host-bit-free key lists: same keys in any order *)
-Theorem C06_dict_eq : forall a b, Forall wfh a -> Forall wfh b -> NoDup a -> NoDup b ->
-  (dict_eqb a b = true <-> Permutation a b).
-Proof. exact dict_eqb_iff. Qed.
-Print Assumptions C06_dict_eq.
+(* d.update(other) / dict.fromkeys(l) / dict == dict (on duplicate-free host-bit-free key lists: same keys, any order) *)
+Theorem C06_dict_bulk :
+  (forall l d ver x, den (dupdate d l) ver x <-> den d ver x \/ den l ver x) /\
+  (forall l d x, dmem x (dupdate d l) = true <-> dmem x d = true \/ dmem x l = true) /\
+  (forall l d x, Forall wfh d -> Forall wfh l -> (In x (dupdate d l) <-> In x d \/ In x l)) /\
+  (forall l d, Forall wfh d -> Forall wfh l -> NoDup d -> NoDup (dupdate d l)) /\
+  (forall l d, Forall wfh (d ++ l) -> NoDup (d ++ l) -> dupdate d l = d ++ l) /\
+  (forall l, Forall wfh l -> NoDup l -> dfromkeys l = l) /\
+  (forall l ver x, den (dfromkeys l) ver x <-> den l ver x) /\
+  (forall l x, dmem x (dfromkeys l) = dmem x l) /\
+  (forall a b, Forall wfh a -> Forall wfh b -> NoDup a -> NoDup b -> (dict_eqb a b = true <-> Permutation a b)).
+Proof.
+  exact (conj den_dupdate (conj dmem_dupdate (conj in_dupdate_wfh (conj NoDup_dupdate (conj dupdate_fresh
+        (conj dfromkeys_id (conj den_dfromkeys (conj dmem_dfromkeys dict_eqb_iff)))))))).
+Qed.
+Print Assumptions C06_dict_bulk.
 
 (* ---------------------------------------------------------------- 2. sorted() *)
-Theorem C06_sorted_perm : forall l, Permutation (sorted l) l.
-Proof. exact sorted_perm. Qed.
-Print Assumptions C06_sorted_perm.
-
-Theorem C06_sorted_order : forall l, StronglySorted skey_le (sorted l).
-Proof. exact sorted_SS. Qed.
-Print Assumptions C06_sorted_order.
-
-(* on a valid stored state the sorted list is strictly ascending by (version, first), each block ending before the next *)
-Theorem C06_sorted_strict : forall d, SetInv d -> StronglySorted net_below (sorted d).
-Proof. exact SetInv_sorted_below. Qed.
-Print Assumptions C06_sorted_strict.
+(* a permutation of the input, ascending by sort_key; on a valid stored state strictly ascending by (version, first),
+   each block ending before the next starts *)
+Theorem C06_sorted :
+  (forall l, Permutation (sorted l) l) /\
+  (forall l, StronglySorted skey_le (sorted l)) /\
+  (forall d, SetInv d -> StronglySorted net_below (sorted d)).
+Proof. exact (conj sorted_perm (conj sorted_SS SetInv_sorted_below)). Qed.
+Print Assumptions C06_sorted.
 
 (* ---------------------------------------------------------------- 3./4. invariant <-> canonical list *)
 Theorem C06_inv_order_free : forall d d', Permutation d d' -> SetInv d -> SetInv d'.
